@@ -23,6 +23,7 @@ import (
 	"runtime/debug"
 	"runtime/metrics"
 	"sort"
+	"strings"
 	"time"
 
 	"mosn.io/api"
@@ -187,17 +188,61 @@ func clipHex(b []byte, n int) string {
 
 var bg = context.Background()
 
+// A runtime fatal error inside the code under test (double unlock, concurrent map write ...) takes the driver down and
+// cannot be recovered. The driver therefore names, in a file of its own, the case it is about to run; the check reads
+// it when the driver died, runs that case alone (-only) to confirm and goes on without it (-skip).
+var (
+	onlyCase      int
+	skipSet       = map[string]bool{}
+	progressFile  *os.File
+	e2eSequential bool
+	e2eOnly       string
+)
+
+func announce(what string) {
+	if progressFile != nil {
+		progressFile.WriteAt([]byte(fmt.Sprintf("%-4000s\n", what)), 0)
+	}
+}
+
+// selected tells whether case idx is to be run, and announces it.
+func selected(idx int) bool {
+	if onlyCase != 0 && idx != onlyCase {
+		return false
+	}
+	if skipSet[fmt.Sprint(idx)] {
+		return false
+	}
+	announce(fmt.Sprintf("case %d", idx))
+	return true
+}
+
 func main() {
 	mode := flag.String("mode", "xdec", "xdec|h2|e2e")
 	cases := flag.String("cases", "", "cases file (JSON lines from TLC)")
 	out := flag.String("trace", "", "trace output (appended when -from > 0)")
 	from := flag.Int("from", 0, "skip the first N work items (restart after a loop)")
 	nrand := flag.Int("rand", 2000, "random strings per decoder")
+	flag.IntVar(&onlyCase, "only", 0, "run just this case (confirmation of a case the process died on)")
+	skipList := flag.String("skip", "", "comma separated case numbers (xdec, h2) or poison names (e2e) that are not run")
+	progPath := flag.String("progress", "", "file that names, before it runs, the case the driver is about to run")
+	flag.BoolVar(&e2eSequential, "seq", false, "e2e: one poison at a time")
+	flag.StringVar(&e2eOnly, "onlyname", "", "e2e: send just this poison (proto/name)")
 	hexIn := flag.String("hex", "", "mode one: the input")
 	codec := flag.String("codec", "bolt", "mode one: bolt|boltv2|dubbo|dubbothrift|tars|h2|hpack")
 	flag.Parse()
 	if !vh.HooksCompiled() {
 		vh.Must(fmt.Errorf("built without -tags verif"), "hooks")
+	}
+	for _, x := range strings.Split(*skipList, ",") {
+		if x != "" {
+			skipSet[x] = true
+		}
+	}
+	if *progPath != "" {
+		f, err := os.Create(*progPath)
+		vh.Must(err, "progress file")
+		progressFile = f
 	}
 	log.DefaultLogger.SetLogLevel(log.FATAL)
 	log.Proxy.SetLogLevel(log.FATAL)
